@@ -21,7 +21,7 @@ checks = []
 na = []
 for p in props:
     pid = p["id"]
-    if pid in D.CLAIMS:
+    if pid in D.CLAIMS and pid in D.ENABLED:
         c = D.CLAIMS[pid]
         checks.append({
             "property_id": pid,
@@ -47,7 +47,7 @@ m = {
         "add_only": True,
     },
     "engines": [
-        {"name": "fbr-static", "path": "check", "serves_properties": sorted(D.CLAIMS.keys()),
+        {"name": "fbr-static", "path": "check", "serves_properties": sorted(k for k in D.CLAIMS if k in D.ENABLED),
          "kind_free_text": "custom static analysis: rustc_private fact extractor (typed HIR, ADT/const tables, macro token trees, FormatArgs, monomorphic instance graph + MIR) and repository-specific Python rules (decision tables, traversal completeness, guard dominance, layout agreement, interval analysis)"},
     ],
     "checks": checks,
